@@ -467,24 +467,24 @@ Section Sound.
   Variable B : list str.
   Variable P : package.
   Variable C : sysmods.
-  Hypothesis Hcanon : canon B P = Ok C.
-  Hypothesis Hacyc : c_acyclic P = true.
+  Variable order : list modpath.
+  Hypothesis Hcanon : canon_with B P order = Ok C.
+  Hypothesis Hacyc : c_acyclic_with P order = true.
   Hypothesis Hclosed : c_closed P = true.
   Hypothesis Hnoanc : c_no_ancestor_names P = true.
   Hypothesis Hpaths : c_paths P = true.
 
-  Let order := topo_order P.
   Definition idx (p : modpath) : option nat := index_of p order.
 
   Lemma ord_nodup : NoDup order.
   Proof.
-    unfold c_acyclic in Hacyc. apply andb_true_iff in Hacyc. destruct Hacyc as [H _].
+    unfold c_acyclic_with in Hacyc. apply andb_true_iff in Hacyc. destruct Hacyc as [H _].
     apply andb_true_iff in H. destruct H as [H _]. apply nodup_paths_NoDup. exact H.
   Qed.
 
   Lemma ord_mod : forall p i, idx p = Some i -> has_mod P p = true.
   Proof.
-    intros p i H. unfold c_acyclic in Hacyc. apply andb_true_iff in Hacyc. destruct Hacyc as [_ H3].
+    intros p i H. unfold c_acyclic_with in Hacyc. apply andb_true_iff in Hacyc. destruct Hacyc as [_ H3].
     rewrite forallb_forall in H3. apply H3. apply index_of_nth in H. eapply nth_error_In. exact H.
   Qed.
 
@@ -492,9 +492,9 @@ Section Sound.
     exists i, idx (path m) = Some i /\
       forall q, In q (mod_edges P m) -> exists j, idx q = Some j /\ j < i.
   Proof.
-    intros m Hm. unfold c_acyclic in Hacyc. apply andb_true_iff in Hacyc. destruct Hacyc as [H _].
+    intros m Hm. unfold c_acyclic_with in Hacyc. apply andb_true_iff in Hacyc. destruct Hacyc as [H _].
     apply andb_true_iff in H. destruct H as [_ H]. rewrite forallb_forall in H. specialize (H m Hm).
-    unfold edges_decrease in H. fold order in H.
+    unfold edges_decrease in H.
     destruct (index_of (path m) order) as [i|] eqn:Ei; [|discriminate].
     exists i. split; [exact Ei|]. intros q Hq. rewrite forallb_forall in H. specialize (H q Hq).
     unfold idx. destruct (index_of q order) as [j|]; [|discriminate].
@@ -504,7 +504,7 @@ Section Sound.
   (* --- the canonical entries *)
   Lemma canon_paths : map ms_path C = order.
   Proof.
-    unfold canon in Hcanon. apply fold_canon in Hcanon. destruct Hcanon as [ext [HC [Hm _]]].
+    unfold canon_with in Hcanon. apply fold_canon in Hcanon. destruct Hcanon as [ext [HC [Hm _]]].
     simpl in HC. subst C. exact Hm.
   Qed.
 
@@ -513,7 +513,7 @@ Section Sound.
       sbody B P (find_sys (firstn j C)) ([], None) (body m) = Ok (g, al) /\
       exports_ok g al = true /\ nth_error C j = Some (mkMS p true g al).
   Proof.
-    intros p j H. unfold canon in Hcanon. apply fold_canon in Hcanon.
+    intros p j H. unfold canon_with in Hcanon. apply fold_canon in Hcanon.
     destruct Hcanon as [ext [HC [_ Hall]]]. simpl in HC. subst C.
     apply index_of_nth in H. exact (Hall j p H).
   Qed.
@@ -1103,14 +1103,37 @@ Section Sound.
   Qed.
 End Sound.
 
+(* soundness w.r.t. any supplied order *)
+Theorem pkg_ok_with_sound : forall B pkg order, pkg_ok_with B pkg order = true ->
+  forall m, In m pkg -> exec_pkg B pkg (size pkg) m = Ok tt.
+Proof.
+  intros B pkg order H m Hm. unfold pkg_ok_with in H.
+  repeat (apply andb_true_iff in H; destruct H as [H ?]).
+  unfold c_static_with in *. destruct (canon_with B pkg order) as [C|e] eqn:EC; [|discriminate].
+  unfold exec_pkg.
+  destruct (exec_mod_ok B pkg C order EC) with (m := m) as [st Hst]; try assumption.
+  rewrite Hst. reflexivity.
+Qed.
+
 (* pkg_ok is a sufficient condition: every module of the package imports from a fresh interpreter *)
 Theorem pkg_ok_sound : forall B pkg, pkg_ok B pkg = true ->
   forall m, In m pkg -> exec_pkg B pkg (size pkg) m = Ok tt.
 Proof.
-  intros B pkg H m Hm. unfold pkg_ok, pkg_ok_conjuncts in H. simpl in H.
+  intros B pkg H m Hm. apply (pkg_ok_with_sound B pkg (topo_order pkg)); [|exact Hm].
+  unfold pkg_ok, pkg_ok_conjuncts in H. simpl in H.
   repeat (apply andb_true_iff in H; destruct H as [? H]).
-  unfold c_static in *. destruct (canon B pkg) as [C|e] eqn:EC; [|discriminate].
-  unfold exec_pkg.
-  destruct (exec_mod_ok B pkg C EC) with (m := m) as [st Hst]; try assumption.
-  rewrite Hst. reflexivity.
+  unfold pkg_ok_with. unfold c_acyclic, c_static in *.
+  rewrite H0, H1, H2, H5, H6, H7. reflexivity.
 Qed.
+
+(* F20e: an enum value that sanitises to a _sunder_ member name (`_A_`): Enum refuses the class *)
+Definition n_Enum : str := [69;110;117;109]%N.
+Definition n_enum : str := [101;110;117;109]%N.
+Definition n_sunder : str := [95;65;95]%N.
+Definition w_F20e : package :=
+  [ mkMod [n_p] [];
+    mkMod [n_p; n_ev] [FromImport [n_enum] [(n_Enum, n_Enum)];
+                       ClassDef n_Ev [AName n_Enum] [CAssign n_sunder (AStr []); CAssign n_B (AStr [])]] ].
+Lemma refuted_F20e :
+  c_static builtin_names w_F20e = false /\ c_parses w_F20e = true /\ failed_with (ex w_F20e [n_p; n_ev]) EValue.
+Proof. vm_compute. repeat split; reflexivity. Qed.
